@@ -301,6 +301,7 @@ def compact(trace) -> dict:
     """Keep what the oracle and the Coq case need."""
     iters, hist = [], []
     ever, cur = set(), None
+    finished = set()      # instances removed from the pool while they belonged to a flow
     info = None
     phase = None          # None | "pass" | "rts"
     soo = []              # stack of [id, out, in_ric]
@@ -327,6 +328,8 @@ def compact(trace) -> dict:
         elif k == "remove":
             i = tuple(e["t"]["id"])
             in_pool.discard(i)
+            if e["t"]["flows"]:
+                finished.add(i)      # (a finished no-flow run does not stop a later spawn in a flow)
             hist.append([tick, "remove", list(i), e["reason"]])
         elif k == "manual":
             hist.append([tick, "manual", e["id"]])
@@ -341,7 +344,7 @@ def compact(trace) -> dict:
             hist.append([tick, "restarted"])
         if k == "expire_begin":
             cur = {"it": e["it"], "tick": tick, "now": e["now"], "before": e["tasks"], "to_hold": e["to_hold"],
-                   "hold_point": e["hold_point"], "gone": sorted(ever - {tuple(t["id"]) for t in e["tasks"]}),
+                   "hold_point": e["hold_point"], "gone": sorted(finished - {tuple(t["id"]) for t in e["tasks"]}),
                    "evs": [], "after": None, "rts": None, "released": None, "submit": [], "final": None, "odd": [],
                    "skip": []}
             iters.append(cur)
@@ -771,14 +774,14 @@ class ExpireStream(Stream):
     needs_scratch_home = True
     n_hashseeds = 16
     shard_size = 40
-    impl_timeout = 900
-    n_quick, n_thorough_wf = 30, 24
+    impl_timeout = 3000
+    n_quick, n_thorough_wf = 24, 16
     rule = ("generated date-cycling workflows (P1D from 2000-01-01, 2-4 cycles, 2-5 tasks, 1-3 clock-expire tasks with "
             "offsets from {none, PT0S, PT30M, PT1H, PT6H, P1D, P1DT12H, -PT1H, -PT6H, -P1D}, :expired? / :started / "
             ":failed? / success edges, same-cycle and [-P1D], AND of several lines, runahead P0-P3, queue limit 1-2, "
             "execution retries with a long delay, job failures, hold / release / trigger / trigger --flow=none commands) "
             "x virtual clock schedules (ramp, step across a chosen expiry time at a chosen main-loop iteration with "
-            "offset -1 s / 0 / +1 s / hours, exact hit, all past, never, random); thorough: every iteration 0..13 as the "
+            "offset -1 s / 0 / +1 s / hours, exact hit, all past, never, random); thorough: every iteration 0..11 as the "
             "crossing point x offset {-1, 0, +1}; one Coq checkpoint per main-loop iteration; "
             "non-trivial = distinct (workflow, clock, commands) with at least one expiry")
 
@@ -794,7 +797,7 @@ class ExpireStream(Stream):
             wf = gen_workflow(r)
             ops = gen_ops(r, wf)
             tgt_seed = r.randrange(1 << 30)
-            for k in range(14):
+            for k in range(12):
                 for delta in (-1, 0, 1):
                     s = json.loads(json.dumps(wf))
                     s["clock"] = gen_clock(random.Random(tgt_seed), s, kind="cross", k=k, delta=delta)
@@ -821,8 +824,15 @@ class ExpireStream(Stream):
         home = Path(os.environ["HOME"])
         out = []
         for c in cases:
-            expire_ext.reset_run(c["clock"])
-            r = driver.run_many([c], home)[0]
+            for _attempt in range(4):
+                expire_ext.reset_run(c["clock"])
+                r = driver.run_many([c], home)[0]
+                err = r["meta"].get("error") or ""
+                # start-up of the scheduler's server thread has a 10 s barrier: on an overloaded machine it can
+                # time out before the workflow has done anything; that is not a result, run the case again
+                if not any(x in err for x in ("BrokenBarrierError", "TimeoutError", "Address already in use")):
+                    break
+                _t.sleep(2.0)
             res = compact(expire_ext.merged_trace(r["trace"]))
             res["meta"] = {k: v for k, v in r["meta"].items() if k != "wid"}
             out.append(res)
